@@ -11,7 +11,7 @@ recording mock connection), and the four judges
 Each judge returns a list of (tag, message); tags only serve the evidence classes.  The lexers, literal decoders and
 driver models live in vlib/c06_lex.py and never import Pony.
 """
-import os, sys, copy, datetime, decimal, sqlite3
+import os, re, sys, copy, datetime, decimal, sqlite3
 from vlib import c06_lex as L
 
 STUBS = os.path.join(os.path.dirname(os.path.abspath(__file__)), 'stubs')
@@ -592,7 +592,9 @@ def judge_ast(case, styles=L.STYLES):
                 pos = 0
                 if ok:
                     for (xk, xv) in ev:
-                        piece = str(xv)
+                        # items may be quoted / escaped by the dialect's path syntax: only their leading alphanumerics are
+                        # looked for, in order
+                        piece = re.match(r'[A-Za-z0-9]*', str(xv)).group(0)
                         at = s.find(piece, pos)
                         if at < 0:
                             ok = False
@@ -953,6 +955,18 @@ def judge_query(case):
         row.update({c: dec(v) for c, v in r.items()})
         row['id'] = k + 1
         rows_in.append(row)
+    # the benign twin of the query (same shape, harmless values) is built once per skeleton, in a session of its own
+    # (inside one session Pony answers a repeated identical query from its result cache without sending SQL)
+    key = _skeleton(case)
+    if key not in w['shapes']:
+        with db_session:
+            try:
+                tsql, targs, _ = run_query(w, benign_case(case), False)
+                w['shapes'][key] = (L.shape(L.bind(dialect, style, tsql, targs)), tsql)
+            except Exception:                    # whatever stops the twin also stops (and is reported for) the case itself
+                w['shapes'][key] = None          # no reference shape: the structure comparison is skipped for this skeleton
+            finally:
+                rollback()
     with db_session:
         try:
             for row in rows_in:
@@ -974,15 +988,9 @@ def judge_query(case):
             fails.extend(f)
             # ---- (c) structure: same token-kind sequence as the benign twin of the query
             if toks is not None and not any(t[0] in ('driver', 'structure') for t in f):
-                key = _skeleton(case)
-                ref = w['shapes'].get(key)
-                if ref is None:
-                    twin = benign_case(case)
-                    tsql, targs, _ = run_query(w, twin, False)
-                    ttoks = L.bind(dialect, style, tsql, targs)
-                    ref = w['shapes'][key] = (L.shape(ttoks), tsql)
+                ref = w['shapes'].get(_skeleton(case))
                 mine = L.shape(toks)
-                if mine != ref[0]:
+                if ref is not None and mine != ref[0]:
                     k, a, b = L.shape_diff(mine, ref[0])
                     fails.append(('structure', '%s: the statement built for the values %r has another token structure than the '
                                   'same query with harmless values of the same types (token %d: %s vs %s); SQL %s versus %s'
@@ -1050,8 +1058,13 @@ def _sqlite_float_noise(case):
 # (c) identifiers
 # =====================================================================================================================
 
-NAME_KEYS = ['table', 'id', 's', 'n', 'm2m', 'acol', 'bcol']
-BENIGN_NAMES = {'table': 'tbl_a', 'id': 'c_id', 's': 'c_s', 'n': 'c_n', 'm2m': 'tbl_m', 'acol': 'c_a', 'bcol': 'c_b'}
+NAME_KEYS = ['table', 'id', 's', 'n', 'm2m', 'acol', 'bcol', 'btable', 'bid']
+BENIGN_NAMES = {'table': 'tbl_a', 'id': 'c_id', 's': 'c_s', 'n': 'c_n', 'm2m': 'tbl_m', 'acol': 'c_a', 'bcol': 'c_b',
+                'btable': 'tbl_b', 'bid': 'c_bid', 'schema': 'sch'}
+
+
+def _benign_names(names):
+    return {k: BENIGN_NAMES[k] for k in names}
 _twin_names = {}
 
 
@@ -1060,14 +1073,16 @@ def names_db(dialect, names, log):
     db = Database()
 
     class A(db.Entity):
-        _table_ = names['table']
+        # 'schema' (optional, not on SQLite): the table name is given as a (schema, table) pair
+        _table_ = (names['schema'], names['table']) if 'schema' in names else names['table']
         id = PrimaryKey(int, column=names['id'])
         s = Optional(str, column=names['s'], autostrip=False)
         n = Required(int, column=names['n'])
         bs = Set('B', table=names['m2m'], column=names['bcol'])
 
     class B(db.Entity):
-        id = PrimaryKey(int)
+        _table_ = names['btable']
+        id = PrimaryKey(int, auto=True, column=names['bid'])        # INSERT ... RETURNING <name> on PostgreSQL / Oracle
         aset = Set(A, column=names['acol'])
     bind_db(db, dialect, log)
     if dialect == 'sqlite':
@@ -1082,7 +1097,8 @@ def names_script(db, A, B, data):
     from pony.orm import db_session, flush, rollback, select
     with db_session:
         try:
-            b = B(id=1)
+            b = B()
+            flush()
             a = A(id=1, s=data['s'], n=data['n'], bs=[b])
             flush()
             a.s = data['s2']
@@ -1103,14 +1119,33 @@ def _names_statements(dialect, names, data):
     try:
         ddl = None if dialect == 'sqlite' else db.schema.generate_create_script()
         mark = len(log)
+        db.check_tables()                  # SELECT <columns> FROM <table> WHERE 0 = 1 for every table, in table-name order
+        style = L.NATIVE_STYLE[dialect]
+        checks = sorted(log[mark:], key=lambda sa: len(L.lex(dialect, sa[0], style)))     # 1, 2 and 3 columns
+        mark = len(log)
         names_script(db, A, B, data)
-        stmts = [(s, a) for (s, a) in log[mark:]
-                 if s.split(None, 1)[0].upper() in ('INSERT', 'UPDATE', 'DELETE', 'SELECT')]
+        stmts = checks + [(s, a) for (s, a) in log[mark:]
+                          if s.split(None, 1)[0].upper() in ('INSERT', 'UPDATE', 'DELETE', 'SELECT')]
         if dialect == 'sqlite':
-            ddl = '\n'.join(s for (s, a) in log[:mark] if s.split(None, 1)[0].upper() == 'CREATE')
+            ddl = ';\n'.join(s for (s, a) in log[:mark] if s.split(None, 1)[0].upper() == 'CREATE')
         return ddl, stmts
     finally:
         db.disconnect()
+
+
+def _ddl_shapes(dialect, style, ddl):
+    """sorted token structures of the statements of a CREATE script (the order of tables follows their names)"""
+    stmts, cur = [], []
+    for x in L.shape(L.lex(dialect, ddl, style)):
+        if x == ';':
+            if cur:
+                stmts.append(tuple(cur))
+            cur = []
+        else:
+            cur.append(x)
+    if cur:
+        stmts.append(tuple(cur))
+    return sorted(stmts)
 
 
 def judge_names(case):
@@ -1127,24 +1162,29 @@ def judge_names(case):
             return 'rejected', [], {'rejected': '%s: %s' % (type(e).__name__, e)}
         return 'ok', [('crash', '%s: mapping / using an entity with the names %r raised %s(%s)'
                        % (dialect, names, type(e).__name__, _short(str(e), 300)))], {}
-    key = (dialect, repr(sorted(data.items())))
+    key = (dialect, 'schema' in names, repr(sorted(data.items())))
     twin = _twin_names.get(key)
     if twin is None:
-        tddl, tstmts = _names_statements(dialect, BENIGN_NAMES, data)
-        twin = _twin_names[key] = (L.shape(L.lex(dialect, tddl, style)),
-                                   [(L.bind(dialect, style, s, a), s) for (s, a) in tstmts], tddl)
+        tddl, tstmts = _names_statements(dialect, _benign_names(names), data)
+        try:
+            twin = (_ddl_shapes(dialect, style, tddl), [(L.bind(dialect, style, s, a), s) for (s, a) in tstmts], tddl)
+        except L.DriverError as e:
+            return 'ok', [('driver', '%s: even with the harmless names %r and the data %r the driver cannot bind a statement of '
+                           'the script: %s; statements: %s' % (dialect, _benign_names(names), data, e, _short(tstmts, 600)))], {}
+        _twin_names[key] = twin
     info = {'statements': [s for s, a in stmts[:3]]}
     # DDL is executed without arguments (no %-formatting by the driver)
-    dshape = L.shape(L.lex(dialect, ddl, style))
+    dshape = _ddl_shapes(dialect, style, ddl)
     if dshape != twin[0]:
-        k, a, b = L.shape_diff(dshape, twin[0])
-        fails.append(('structure', '%s: the CREATE script for the names %r has another token structure than the script for '
-                      'harmless names (token %d: %s vs %s): %s' % (dialect, names, k, a, b, _short(ddl, 700))))
+        odd = [x for x in dshape if x not in twin[0]] or dshape
+        fails.append(('structure', '%s: the CREATE script for the names %r does not consist of the same statements (token '
+                      'structure) as the script for harmless names, e.g. %s; script: %s'
+                      % (dialect, names, _short(' '.join(odd[0]), 300), _short(ddl, 700))))
     if len(stmts) != len(twin[1]):
         fails.append(('structure', '%s: the script ran %d statements with the names %r, %d with harmless names'
                       % (dialect, len(stmts), names, len(twin[1]))))
         return 'ok', fails, info
-    rename = {BENIGN_NAMES[k]: names[k] for k in NAME_KEYS}
+    rename = {BENIGN_NAMES[k]: names[k] for k in names}
     for (sql, args), (ttoks, tsql) in zip(stmts, twin[1]):
         shown = 'SQL %s with arguments %s' % (_short(sql, 500), _short(args, 200))
         try:
@@ -1163,8 +1203,8 @@ def judge_names(case):
             fails.append(('identifier', '%s: the quoted identifiers of the statement denote %r, the declared names are %r; %s'
                           % (dialect, got_ids, want_ids, shown)))
             continue
-        got_vals = [t.value.value for t in toks if t.kind == 'ph']
-        want_vals = [t.value.value for t in ttoks if t.kind == 'ph']
+        got_vals = [t.value.value for t in toks if t.kind == 'ph' and t.value.key != 'new_id']      # Oracle's RETURNING .. INTO
+        want_vals = [t.value.value for t in ttoks if t.kind == 'ph' and t.value.key != 'new_id']   # :new_id is an out variable
         if got_vals != want_vals:
             fails.append(('alignment', '%s: with the names %r the placeholders receive %r, with harmless names %r; %s'
                           % (dialect, names, got_vals, want_vals, shown)))
@@ -1186,7 +1226,7 @@ def _names_live(names, data):
     db, A, B = names_db('sqlite', names, log)
     try:
         with db_session:
-            b1, b2 = B(id=1), B(id=2)
+            b1, b2 = B(), B()
             A(id=1, s=data['s'], n=data['n'], bs=[b1, b2])
             A(id=2, s=data['s2'], n=data['n'] + 1, bs=[b2])
         with db_session:
